@@ -97,11 +97,16 @@ function getPrepareStackTrace (originalPrepareStackTrace) {
     }
 
     const stackLines = error.stack.split('\n')
-    let firstIndex = -1
-    for (let i = 0; i < stackLines.length; i++) {
-      if (stackLines[i].match(/^\s*at/gm)) {
-        firstIndex = i
-        break
+    // the frames are the last lines of the stack: a message that continues on a line starting
+    // with "at" must not be taken for the first frame
+    let firstIndex = stackLines.length - structuredStackTrace.length
+    if (firstIndex < 0 || !/^\s*at/.test(stackLines[firstIndex])) {
+      firstIndex = -1
+      for (let i = 0; i < stackLines.length; i++) {
+        if (stackLines[i].match(/^\s*at/gm)) {
+          firstIndex = i
+          break
+        }
       }
     }
     return stackLines
